@@ -55,8 +55,10 @@ def main():
     before = set(glob.glob(os.path.join(VERIF, 'replays', '*.json')))
     with ThreadPoolExecutor(a.jobs) as ex:
         res = list(ex.map(lambda f: run_one(f, a.tier, a.seed), files))
+    props = set(os.path.basename(f).split('-')[0] for f in files)
     for f in set(glob.glob(os.path.join(VERIF, 'replays', '*.json'))) - before:
-        os.unlink(f)
+        if os.path.basename(f).split('-')[0] in props:
+            os.unlink(f)
     bad = 0
     for name, verdict, info, dt in res:
         print('%-40s %-12s %5.1fs %s' % (name, verdict, dt, info[:300]))
